@@ -13,6 +13,7 @@ import (
 	"testing"
 	"time"
 
+	"github.com/IrineSistiana/mosproxy/internal/zzverif/env"
 	"github.com/IrineSistiana/mosproxy/internal/zzverif/refdns"
 	"github.com/IrineSistiana/mosproxy/internal/zzverif/report"
 )
@@ -152,6 +153,12 @@ func TestVerifC01Decoder(t *testing.T) {
 		}
 	}()
 
+	// on behalf of C20 the same enumeration runs with the buffer-ownership hook installed
+	var own *env.Own
+	if os.Getenv("VERIF_PROP") == "C20" {
+		own = env.InstallOwn(0xA5, false)
+		defer env.UninstallOwn()
+	}
 	n := 0
 	try := func(b []byte) {
 		n++
@@ -167,6 +174,11 @@ func TestVerifC01Decoder(t *testing.T) {
 		}
 		if acc {
 			rep.Count("accepted", 1)
+		}
+		if own != nil {
+			for _, v := range own.Audit() {
+				rep.Violate("C20:decoder:ownership:"+strings.SplitN(v, " ", 3)[0]+"-"+strings.SplitN(v+"  ", " ", 3)[1], fmt.Sprintf("%s while decoding %x", v, cp), map[string]any{"Input": fmt.Sprintf("%x", cp)})
+			}
 		}
 		rep.Eval(string(cp))
 	}
